@@ -1,6 +1,7 @@
 package props
 
 import (
+	"bytes"
 	"encoding/json"
 	"fmt"
 	"sort"
@@ -28,7 +29,9 @@ func init() {
 // canonSnapshot brings an exported snapshot to a canonical comparable string.
 func canonSnapshot(typ string, snap []byte) string {
 	var v interface{}
-	if err := json.Unmarshal(snap, &v); err != nil {
+	dec := json.NewDecoder(bytes.NewReader(snap))
+	dec.UseNumber() // clocks above 2^53 must not be rounded by the canonicaliser
+	if err := dec.Decode(&v); err != nil {
 		return "!unparsable:" + err.Error()
 	}
 	if typ == "doc" {
@@ -37,10 +40,10 @@ func canonSnapshot(typ string, snap []byte) string {
 		key := func(x interface{}) string {
 			n, _ := x.(map[string]interface{})
 			c, _ := n["c"].(map[string]interface{})
-			l, _ := c["l"].(float64)
-			d, _ := c["d"].(float64)
+			l, _ := c["l"].(json.Number)
+			d, _ := c["d"].(json.Number)
 			cu, _ := c["c"].(string)
-			return fmt.Sprintf("%020d|%s|%010d", uint64(l), cu, uint64(d))
+			return fmt.Sprintf("%024s|%s|%012s", string(l), cu, string(d))
 		}
 		for _, x := range nm {
 			n, _ := x.(map[string]interface{})
